@@ -21,7 +21,7 @@ type Engine struct {
 func New() sim.Engine { return &Engine{} }
 
 func (e *Engine) Setup(tier string) error { e.tier = tier; return nil }
-func (e *Engine) Strides() []int           { return []int{2} }
+func (e *Engine) Strides() []int          { return []int{2} }
 
 type pkt struct {
 	Frame   byte
